@@ -20,11 +20,13 @@ def pil_exporter(image, file_handle, extension="", **kwargs):
     # The extensions are only filled out when save or open are called - which
     # may not have been called before we reach here. So let's make sure that
     # pillow is properly initialised.
-    if not EXTENSION:
-        from PIL.Image import init, preinit
+    # Note that the registry is filled lazily (an earlier open/save only
+    # registers the plugins it needed), so a non-empty registry does not mean
+    # that every plugin is registered: always initialise (it is idempotent).
+    from PIL.Image import init, preinit
 
-        preinit()
-        init()
+    preinit()
+    init()
 
     pil_image = image.as_PILImage()
     # Also, the format kwarg of PIL/Pillow is a bit confusing and actually
